@@ -1312,3 +1312,28 @@ mod tests {
         assert!(book.ask_side.best_order_idx() == loaded_book.ask_side.best_order_idx());
     }
 }
+
+/// Read-only verification hooks (feature `verif`, off by default)
+#[cfg(feature = "verif")]
+impl<const LEVELS: usize> OrderBook<LEVELS> {
+    /// Ids of the resting orders of one side in priority order
+    pub fn verif_resting(&self, side: Side) -> Vec<OrderId> {
+        match side {
+            Side::Bid => self.bid_side.verif_queue(),
+            Side::Ask => self.ask_side.verif_queue(),
+        }
+    }
+
+    /// (price, volume, order count) of every occupied level of one side, best first
+    pub fn verif_levels(&self, side: Side) -> Vec<(Price, Vol, OrderCount)> {
+        match side {
+            Side::Bid => self.bid_side.verif_levels(),
+            Side::Ask => self.ask_side.verif_levels(),
+        }
+    }
+
+    /// Current state of the trading flag
+    pub fn verif_trading(&self) -> bool {
+        self.trading
+    }
+}
